@@ -92,8 +92,9 @@ SENTINEL = b"SENTINEL pre-existing content that must not change\n" * 400
 
 
 def outputs_of(cr):
-    skip = {"input.fa", "input.fa.fai", "input.fa.agp", "input.tpf", "input.agp", "pretext.agp"}
-    return sorted(p.name for p in cr["dir"].iterdir() if p.is_file() and p.name not in skip)
+    from vf.cli_runs import INPUT_PREFIXES
+
+    return sorted(p.name for p in cr["dir"].iterdir() if p.is_file() and not p.name.startswith(INPUT_PREFIXES))
 
 
 def check_case(ctx, cr, out_name, write_log, rng, tier, max_subsets):
